@@ -27,7 +27,7 @@ CLAIMED = {
     "C05": (
         "exploration",
         "Node level: 2-3 real nodes, every pair configured in one or both directions (dual open), staggered starts; a fault phase of 0-900 s with a per-run subset of {loss 10-100 %, duplication, delay up to 90 s, jitter up to 5 s, one- and two-way partitions with heals, node stalls, send errors}, then a reliable phase. Oracle (bounded liveness after faults stop): all pairs mutually connected and a marked probe frame delivered byte-identical in both directions within peer timeout + retry horizon (120 retries x 2 s housekeeping period) + 10 s + 2 x the reconnect back-off reached when faults stop, counted from the landing time of the last delayed datagram; no unwind in any step.",
-        "Trusted: simulator seams; the bound uses the housekeeping period the event loop really has (every other second), see DESIGN.md. The pair-level agreement clauses (same key/cipher/roles, exactly one rotation starter, payload as offered, at most one completion per attempt) are decided by the L1 pair scenarios of this check once built; until then they are covered only indirectly through the probe-delivery oracle.",
+        "Trusted: simulator seams; the bound uses the housekeeping period the event loop really has (every other second), see DESIGN.md. Two thirds of the runs are pair-level agreement schedules (sim/src/l1.rs, c05): a seed-indexed sweep of all schedules of length 4 (thorough: 6) over {A initiates, B initiates, deliver oldest/newest, duplicate, drop, tick A, tick B} plus random schedules to depth 200 on two real PeerCrypto ends; oracle: an attempt succeeds at most once, payload exactly as offered, no attempt completes against two partners (encrypted modes), and connections completed against each other have complementary initiator flags, equal ciphers and open each other's datagrams.",
         "DESIGN.md section 8, C05",
         "seeded adversarial network then reliable phase; bounded liveness",
     ),
@@ -65,6 +65,34 @@ CLAIMED = {
         "Trusted: simulator seams, the reference dissector and learning table. The sweep over all 65536 tag-control values is a pure-function sweep and is sampled here (5 VLAN ids x 16 PCP/DEI nibbles).",
         "DESIGN.md section 8, C13",
         "seeded frame sequences with time steps around the switch timeout; reference learning table",
+    ),
+    "C03": (
+        "exploration",
+        "Pair level (L1): an established pair of real PeerCrypto objects for each cipher. A seed-indexed sweep enumerates all schedules of length 5 (thorough: 7) over {seal next, deliver datagram 1..5 (again), tick receiver}; random histories of 20-400 steps add sender ticks, delivery/loss of rotation messages and fast-forwards across key rotations. Oracle computed from the recorded history only (no access to the window variables): a genuine datagram with counter c under key generation g is rejected iff something with counter >= c was accepted under g before the receiver's previous tick, accepted otherwise while the receiver still holds g under that key id, and opens to the sealed bytes. Both directions of error are reported (replay hole, loss of in-window traffic).",
+        "Trusted: the L1 driver (sim/src/pair.rs replicates the node's per-address routing of handshake objects), Seal/KeyRotated probes for attributing datagrams to key generations. A 'tick' is one call of every_second; the node-level replay of captured data datagrams k rounds later is part of C09.",
+        "DESIGN.md section 8, C03",
+        "seed-indexed exhaustive sweep of short schedules + random histories; history oracle",
+    ),
+    "C04": (
+        "exploration",
+        "Pair level: whole connection lifetimes of a real PeerCrypto pair - handshake by one side or both at once with reordered/duplicated datagrams, 300-1500 ticks per end (thorough: up to 4000; 120 ticks per rotation cycle), rotation messages lost/duplicated/reordered/delayed, a probe sealed in both directions after every step, nonce starts shaped to sit below carry boundaries of 1-6 bytes, the counter placed 1-40 seals below the 56 bit limit. Oracle over the seal log (every encrypt call): no (key, nonce) pair twice, strictly increasing per (end, key), different top bytes at the two ends of a key, every key starts exactly at the generator's bytes and its first seal is start+1, past the 56 bit limit the peer opens nothing and below it everything.",
+        "Trusted: the Seal/NonceStart probes (src/crypto/core.rs, guarded) and the key fingerprint (AEAD tag of the empty message under the reserved all-ones nonce). Unpredictability is checked as 'equals what the generator handed out', not statistically.",
+        "DESIGN.md section 8, C04",
+        "seeded lifetimes with shaped nonce starts and counter placement; global seal-log uniqueness",
+    ),
+    "C06": (
+        "fault_enumeration",
+        "Pair level: all 225 pairs of non-empty subsets of {plain, aes128, aes256, chacha20} are enumerated (run i takes pair i mod 225); speeds from the grid {0, 1, 50, 50, 400, 3.4e38} per cipher and side, 2-4 variants per run with independent list orders and initiator in {A, B, both at once}, in 40 % of the runs one in-flight edit of the cipher list (algorithm id, speed byte, list length). Oracle: independent reference selection; both ends equal and among the maximisers of min(speed_A, speed_B); clean failure iff no common cipher; never plain without mutual consent; the same cipher under every order/initiator; an edited list is rejected without state change; established ends open each other's datagrams.",
+        "Trusted: L1 driver, prescribed speeds through the guarded hook in Crypto::new (the real measurement is replaced). The empty algorithm list means 'defaults' to the configuration parser and is therefore the 3-cipher set; NaN speeds are excluded as in the property.",
+        "DESIGN.md section 8, C06",
+        "enumeration of subset pairs x seeded speeds, orders, initiators and in-flight edits; reference model + metamorphic relation",
+    ),
+    "C07": (
+        "exploration",
+        "Pair level: an established real PeerCrypto pair (real rotation state, real key slots); 300-1500 ticks per end (thorough: up to 4000) at independent rates, rotation messages lost (10-60 %), duplicated, reordered, delayed by up to 600 ticks during a fault phase covering 0-75 % of the run. After every step each end seals a probe and the other must open it to the same bytes; in the fault-free suffix (after 4 intervals of recovery) the sealing key of each direction changes at least once per window of 2 rotation intervals + 1 tick.",
+        "Trusted: L1 driver. The exhaustive depth-12 schedule enumeration of the quantifier is replaced by seeded schedules over 2-30 rotation cycles.",
+        "DESIGN.md section 8, C07",
+        "seeded rotation schedules with message faults; probe-after-every-step invariant + bounded freshness",
     ),
 }
 
